@@ -140,6 +140,11 @@ func newScriptEnv(c *lib.Ctx, fl flavour) *scriptEnv {
 	e.keyGroups = lib.Pick(r, []int{1, 2, 4, 7, 64, 256, 256, 1000}) // small even counts: few keys are enough to populate the last key group
 	if c.Index%25 == 24 {
 		e.keyGroups = 65535 // deploy scans every key group's timers: slow, so only now and then
+		if lib.RaceEnabled {
+			// one partition object per key group: 10 GB per case under the race detector (16 shards at once were
+			// killed by the kernel); the arithmetic at the upper bound is the plain build's business
+			e.keyGroups = 4096
+		}
 	}
 	e.maxSize = lib.Pick(r, []int{1, 2, 3, 5, 8, 16})
 	e.hasDelay = r.Intn(2) == 0
@@ -570,7 +575,10 @@ func (e *scriptEnv) stepRedeploy() {
 	// (Plain builds only: HandleDeploy replaces the operator's stores under its own mutex while the event loop
 	// reads them without it — the race detector reports HandleDeploy <-> processEventBatch, which is part of the
 	// known finding in-place-redeploy and not what the race build of this part is looking for.)
-	if len(e.model.Pending) == 0 && len(e.blocked) == 0 && e.r.Intn(3) == 0 && !lib.RaceEnabled {
+	// (Not with a slow log sink either: "idle" is judged from outside — the handler has returned — and an event loop
+	// that is delayed at a log call between the handler's return and the application of its mutations is not idle;
+	// an in-place redeploy then is the known finding again. Found by C02 thorough #485.)
+	if len(e.model.Pending) == 0 && len(e.blocked) == 0 && e.r.Intn(3) == 0 && !lib.RaceEnabled && e.lagLog == nil {
 		lib.DKVIdle(ophar.Watchdog)
 		e.redeploys++
 		e.logOp("redeploy IN PLACE from checkpoint %d as %s (the same operator object receives HandleDeploy again)", e.lastAck.CheckpointID, e.opID)
